@@ -38,11 +38,7 @@ theorem execFailed_spec {s : State} (h : Core s) (hfix : s.cfg.fixCancel = true)
     obtain ⟨hv, hobjs, hev, hdone⟩ := markFailed_frame _ s2 r.id hmf
     obtain ⟨_, hex, _, _, _, _, _, _, _, _, _, _, _, _, _, hcfg, _⟩ := view_eq hv
     refine ⟨?_, by rw [hv, q.view], ?_, evs, by rw [hev, he1], execsOf_finals evs he2⟩
-    · apply q.core.congr hobjs hev hex hcfg
-      intro o' ho' hm'
-      rw [hdone]
-      obtain ⟨_, _, _, q', _, h1, _, h3⟩ := q.core.live o' ho' hm'
-      rw [← h1]; exact h3
+    · exact q.core.congr hobjs hev hex hcfg (fun _ _ _ hd => by rw [hdone] at hd; exact hd)
     · intro i; rw [hdone]; exact q.done i
 
 theorem complete_spec {s s4 : State} (h : Core s) {r : Req} {k : Nat} (hr : r ∈ s.executing)
@@ -118,14 +114,45 @@ theorem execObj_mem {s : State} (_h : Core s) {c : Cmd} (hc : c ∈ s.objs) (hm 
   refine ⟨_, List.mem_map.mpr ⟨c, hc, rfl⟩, ?_⟩
   simp [hm]
 
-/-- Case A of `runCmd`: the instance exists and is live. -/
+/-- One call of `execute` on a live instance, and what follows it. -/
+theorem afterExec_spec {s : State} (h : Core s) (hfix : s.cfg.fixCancel = true) (htr : TrackEx s)
+    {r : Req} {k : Nat} (hr : r ∈ s.executing) (hk : r.name = .uod k) {c : Cmd} (hc : c ∈ s.objs)
+    (hm : c.inMap = true) (hn : c.name = k) (hcan : c.cancelled = false) :
+    RunPost s (afterExec (execObj s c) r k c.serial).1 r k := by
+  have h3 := h.exec hc hm
+  obtain ⟨hv, hd, hev, _⟩ := execObj_facts s c
+  obtain ⟨o, ho, hos, hom, hon, hoc⟩ := execObj_mem h hc hm
+  obtain ⟨_, hex, _, _, _, _, _, _, _, _, _, _, _, _, _, hcfg, _⟩ := view_eq hv
+  have hr3 : r ∈ (execObj s c).1.executing := by rw [hex]; exact hr
+  have post : ∀ s', QuietPost (execObj s c).1 s' r → RunPost s s' r k := by
+    intro s' p
+    refine ⟨p.core, by rw [p.view, hv], fun i hi => p.doneGrow i (by rw [hd]; exact hi),
+      fun i hi => by rw [← hd]; exact p.doneOnly i hi, ?_⟩
+    obtain ⟨evs, h1, hx⟩ := p.evs
+    refine ⟨.exec c.serial c.name c.iters :: evs, by rw [h1, hev]; simp, ?_⟩
+    right
+    exact ⟨c.serial, by simp [execsOf, hn] at hx ⊢; exact hx⟩
+  cases hf : (execObj s c).2 with
+  | true =>
+    have : execObj s c = ((execObj s c).1, true) := by rw [← hf]
+    rw [this]
+    simp only [afterExec]
+    rw [← hos]
+    exact post _ (execFailed_spec h3 (by rw [hcfg]; exact hfix) (htr.of_view hv) hr3 hk ho hom (by rw [hoc, hcan])).toQuiet
+  | false =>
+    have : execObj s c = ((execObj s c).1, false) := by rw [← hf]
+    rw [this]
+    simp only [afterExec]
+    rw [← hos]
+    exact post _ (finishCmd_spec h3 (by rw [hcfg]; exact hfix) (htr.of_view hv) hr3 hk ho hom (by rw [hon, hn]) (by rw [hoc, hcan]))
+
+/-- `runCmd` on an initialised instance that is in the map. -/
 theorem runCmd_live {s : State} (h : Core s) (hfix : s.cfg.fixCancel = true) (htr : TrackEx s)
     {r : Req} {k : Nat} (hr : r ∈ s.executing) (hk : r.name = .uod k) {c : Cmd} (hc : c ∈ s.objs)
     (hm : c.inMap = true) (hn : c.name = k) :
     RunPost s (runCmd s r k c).1 r k := by
-  obtain ⟨hfin, hini, hit, _⟩ := h.live c hc hm
+  obtain ⟨hfin, hini, _⟩ := h.live c hc hm
   unfold runCmd
-  have hit' : (c.iters == 0) = false := by simpa using hit
   by_cases hcan : c.cancelled = true
   · -- a cancelled instance that is still in the map: it is finalized now
     simp only [hcan, hfin, ↓reduceIte, Bool.not_false]
@@ -140,116 +167,29 @@ theorem runCmd_live {s : State} (h : Core s) (hfix : s.cfg.fixCancel = true) (ht
       · exact Or.inl hi
       · exact Or.inr e
   have hcan : c.cancelled = false := by simpa using hcan
-  simp only [hcan, hini, hit', Bool.false_eq_true, ↓reduceIte, Bool.not_true]
-  by_cases hcomp : c.complete = true
-  · simp only [hcomp, Bool.not_true, Bool.false_eq_true, ↓reduceIte]
-    exact (finishCmd_spec h hfix htr hr hk hc hm hn hcan).toRun k
-  · have hcomp : c.complete = false := by simpa using hcomp
-    simp only [hcomp, Bool.not_false, ↓reduceIte]
-    have h3 := h.exec hc hm
-    obtain ⟨hv, hd, hev, _⟩ := execObj_facts s c
-    obtain ⟨o, ho, hos, hom, hon, hoc⟩ := execObj_mem h hc hm
-    obtain ⟨_, hex, _, _, _, _, _, _, _, _, _, _, _, _, _, hcfg, _⟩ := view_eq hv
-    have hr3 : r ∈ (execObj s c).1.executing := by rw [hex]; exact hr
-    have post : ∀ s', QuietPost (execObj s c).1 s' r → RunPost s s' r k := by
-      intro s' p
-      refine ⟨p.core, by rw [p.view, hv], fun i hi => p.doneGrow i (by rw [hd]; exact hi),
-        fun i hi => by rw [← hd]; exact p.doneOnly i hi, ?_⟩
-      obtain ⟨evs, h1, hx⟩ := p.evs
-      refine ⟨.exec c.serial c.name c.iters :: evs, by rw [h1, hev]; simp, ?_⟩
-      right
-      exact ⟨c.serial, by simp [execsOf, hn] at hx ⊢; exact hx⟩
-    cases hf : (execObj s c).2 with
-    | true =>
-      have : execObj s c = ((execObj s c).1, true) := by rw [← hf]
-      rw [this]
+  simp only [hcan, Bool.false_eq_true, ↓reduceIte]
+  by_cases hit : (c.iters == 0) = true
+  · -- first execution: `mark_uod_command_started`, which raises if the instance's record is gone
+    simp only [hit, ↓reduceIte]
+    cases hmk : markUodStarted s c.owner c.serial with
+    | none => exact (execFailed_spec h hfix htr hr hk hc hm hcan).toQuiet.toRun k
+    | some sM =>
+      obtain ⟨hv, hobjs, hev, hdone⟩ := markUodStarted_frame s sM c.owner c.serial hmk
+      obtain ⟨_, hex, _, _, _, _, _, _, _, _, _, _, _, _, _, hcfg, _⟩ := view_eq hv
+      have hM : Core sM := h.congr hobjs hev hex hcfg (fun q _ _ hd => by rw [← hdone]; exact hd)
+      have p := afterExec_spec hM (by rw [hcfg]; exact hfix) (htr.of_view hv) (by rw [hex]; exact hr) hk
+        (by rw [hobjs]; exact hc) hm hn hcan
       simp only
-      rw [← hos]
-      exact post _ (execFailed_spec h3 (by rw [hcfg]; exact hfix) (htr.of_view hv) hr3 hk ho hom (by rw [hoc, hcan])).toQuiet
-    | false =>
-      have : execObj s c = ((execObj s c).1, false) := by rw [← hf]
-      rw [this]
-      simp only
-      rw [← hos]
-      exact post _ (finishCmd_spec h3 (by rw [hcfg]; exact hfix) (htr.of_view hv) hr3 hk ho hom (by rw [hon, hn]) (by rw [hoc, hcan]))
-
-
-
-theorem markUodStarted_isSome (s : State) (i ser : Nat) (ht : s.tracking = true → i ∈ s.track.map (·.id)) :
-    (markUodStarted s i ser).isSome = true := by
-  unfold markUodStarted
-  split
-  · rfl
-  · rename_i htr
-    have htr : s.tracking = true := by simpa using htr
-    have := (getTrack_isSome i s.track).mpr (ht htr)
-    split
-    · rename_i hn; rw [hn] at this; cases this
-    · rfl
-
-/-- Case B of `runCmd`: no instance of the name exists; a new one is created, initialized and executed. -/
-theorem runCmd_fresh {s : State} (h : Core s) (hfix : s.cfg.fixCancel = true) (htr : TrackEx s)
-    {r : Req} {k : Nat} (hr : r ∈ s.executing) (hk : r.name = .uod k) (hrd : r.id ∉ s.done)
-    (hnc : ∀ o ∈ s.objs, o.inMap = true → conflict s.cfg o.name k = false) :
-    RunPost s (runCmd { s with objs := s.objs ++ [{ name := k, serial := s.objs.length, owner := r.id }] } r k
-      { name := k, serial := s.objs.length, owner := r.id }).1 r k := by
-  unfold runCmd
-  simp only [Bool.false_eq_true, ↓reduceIte, Bool.not_false, beq_self_eq_true]
-  -- the state after `initialize()`
-  let c0 : Cmd := { name := k, serial := s.objs.length, owner := r.id }
-  let sI : State := { s with objs := modObj (s.objs ++ [c0]) c0.serial (fun o => { o with initialized := true }),
-                             events := s.events ++ [.init c0.serial] }
-  have hsome := markUodStarted_isSome sI r.id c0.serial (fun ht => htr ht r hr (by simp [Req.isUod, hk]))
-  show RunPost s (match (match markUodStarted sI r.id c0.serial with
-      | none => none
-      | some s => some (execObj s c0)) with
-    | none => (execFailed sI r k c0.serial, true)
-    | some (s, true) => (execFailed s r k c0.serial, true)
-    | some (s, false) => finishCmd s r k c0.serial).1 r k
-  cases hmk : markUodStarted sI r.id c0.serial with
-  | none => rw [hmk] at hsome; cases hsome
-  | some sM =>
-    obtain ⟨hv, hobjs, hev, hdone⟩ := markUodStarted_frame sI sM r.id c0.serial hmk
-    simp only
-    let c1 : Cmd := { c0 with initialized := true, iters := 1, complete := false ||
-        (!((specOf sM.cfg k).failAt == some 0) && (specOf sM.cfg k).dur != 0 && decide (0 + 1 ≥ (specOf sM.cfg k).dur)) }
-    obtain ⟨hv5, hd5, hev5, _⟩ := execObj_facts sM c0
-    have hvs : view (execObj sM c0).1 = view s := by rw [hv5, hv]; rfl
-    obtain ⟨_, hex, _, _, _, _, _, _, _, _, _, _, _, _, _, hcfg, _⟩ := view_eq hvs
-    have hobjs5 : (execObj sM c0).1.objs = s.objs ++ [c1] := by
-      have e1 : sM.objs = s.objs ++ [{ c0 with initialized := true }] := by
-        rw [hobjs]
-        exact modObj_append_new s.objs c0 _ h.serials rfl
-      simp only [execObj, e1]
-      exact modObj_append_new s.objs { c0 with initialized := true } _ h.serials rfl
-    have hev5' : (execObj sM c0).1.events = s.events ++ [.init c0.serial, .exec c0.serial k 0] := by
-      rw [hev5, hev]; simp [sI, c0]
-    have h5 : Core (execObj sM c0).1 :=
-      h.spawn (c := c1) (r := r) hobjs5 rfl rfl rfl rfl rfl rfl hr hk hrd hev5' hex hcfg
-        (by rw [hd5, hdone]) hnc
-    have hc1 : c1 ∈ (execObj sM c0).1.objs := by rw [hobjs5]; simp
-    have hr5 : r ∈ (execObj sM c0).1.executing := by rw [hex]; exact hr
-    have post : ∀ s', QuietPost (execObj sM c0).1 s' r → RunPost s s' r k := by
-      intro s' p
-      refine ⟨p.core, by rw [p.view, hvs], fun i hi => p.doneGrow i (by rw [hd5, hdone]; exact hi),
-        fun i hi => by have := p.doneOnly i hi; rwa [hd5, hdone] at this, ?_⟩
-      obtain ⟨evs, g1, hx⟩ := p.evs
-      refine ⟨[.init c0.serial, .exec c0.serial k 0] ++ evs, by rw [g1, hev5']; simp, ?_⟩
-      right
-      exact ⟨c0.serial, by rw [execsOf_append, hx]; rfl⟩
-    cases hf : (execObj sM c0).2 with
-    | true =>
-      have : execObj sM c0 = ((execObj sM c0).1, true) := by rw [← hf]
-      rw [this]
-      simp only
-      exact post _ (execFailed_spec (o := c1) h5 (by rw [hcfg]; exact hfix) (htr.of_view hvs) hr5 hk hc1 rfl rfl).toQuiet
-    | false =>
-      have : execObj sM c0 = ((execObj sM c0).1, false) := by rw [← hf]
-      rw [this]
-      simp only
-      exact post _ (finishCmd_spec (o := c1) h5 (by rw [hcfg]; exact hfix) (htr.of_view hvs) hr5 hk hc1 rfl rfl rfl)
-
-
+      obtain ⟨evs, e1, e2⟩ := p.evs
+      exact ⟨p.core, by rw [p.view, hv], fun i hi => p.doneGrow i (by rw [hdone]; exact hi),
+        fun i hi => by rw [← hdone]; exact p.doneOnly i hi, evs, by rw [e1, hev], e2⟩
+  · simp only [hit, Bool.false_eq_true, ↓reduceIte]
+    by_cases hcomp : c.complete = true
+    · simp only [hcomp, Bool.not_true, Bool.false_eq_true, ↓reduceIte]
+      exact (finishCmd_spec h hfix htr hr hk hc hm hn hcan).toRun k
+    · have hcomp : c.complete = false := by simpa using hcomp
+      simp only [hcomp, Bool.not_false, ↓reduceIte]
+      exact afterExec_spec h hfix htr hr hk hc hm hn hcan
 
 structure ExecPost (s s' : State) (r : Req) (k : Nat) : Prop where
   core : Core s'
@@ -329,36 +269,100 @@ theorem executeUod_spec {s : State} (h : Core s) (hfix : s.cfg.fixCancel = true)
       refine ⟨e1 ++ e2 ++ e3, by rw [he3, he2, he1]; simp, ?_⟩
       rw [execsOf_append, execsOf_append, execsOf_finals e1 hf1, execsOf_finals e2 hf2]
       simpa using hx
-  -- live instances that remain do not conflict with `k`, unless the instance is the request's own
-  have hown : ∀ o ∈ s2.objs, o.inMap = true → conflict s.cfg o.name k = true → o.owner = r.id := by
+  -- an initialised instance that remains and conflicts with `k` is held by `r` itself
+  have hhold : ∀ o ∈ s2.objs, o.inMap = true → conflict s.cfg o.name k = true → o.name = k ∧ r.bad = false := by
     intro o ho hm hcf
-    obtain ⟨_, _, _, q, hq, h1, h2, h3⟩ := p2.core.live o ho hm
-    rw [← h1]
-    false_or_by_contra
-    rename_i hne
-    exact h3 (hconf q (by rw [← hex2]; exact hq) hne o.name h2 hcf)
-  unfold obtainCmd
+    obtain ⟨_, _, q, hq, h1, h2, h3⟩ := p2.core.live o ho hm
+    have hqr : q.id = r.id := by
+      false_or_by_contra
+      rename_i hne
+      exact h3 (hconf q (by rw [← hex2]; exact hq) hne o.name h1 hcf)
+    have : q = r := req_id_inj p2.core.ids hq hr2 hqr
+    subst this
+    rw [hk] at h1
+    injection h1 with h1
+    exact ⟨h1.symm, h2⟩
   cases hfl : findLive s2.objs k with
   | some c =>
     obtain ⟨hc, hm, hn⟩ := findLive_some hfl
+    have hb := (hhold c hc hm (by rw [hn]; exact conflict_self _ _)).2
+    simp only [hb, Bool.false_eq_true, ↓reduceIte]
     exact wrap _ (runCmd_live p2.core hfix2 htr2 hr2 hk hc hm hn)
   | none =>
     have hnone := findLive_none hfl
     simp only
-    apply wrap
-    apply runCmd_fresh p2.core hfix2 htr2 hr2 hk hrd2
-    intro o ho hm
-    cases hcf : conflict s2.cfg o.name k with
-    | false => rfl
+    cases hb : r.bad with
     | true =>
-      rw [hcfg2] at hcf
-      have ho' := hown o ho hm hcf
-      obtain ⟨_, _, _, q, hq, h1, h2, _⟩ := p2.core.live o ho hm
-      have : q = r := req_id_inj p2.core.ids hq hr2 (by rw [h1, ho'])
-      subst this
-      rw [hk] at h2
-      injection h2 with h2
-      exact absurd h2.symm (hnone o ho hm)
+      -- the parser rejects the arguments: the request is done and fails; nothing is initialised
+      simp only [↓reduceIte]
+      apply wrap
+      generalize hS : ({ s2 with stale := if (staleOwner s2.stale k).isSome = true then s2.stale
+          else s2.stale ++ [(k, r.id)] } : State) = sS
+      have hSo : sS.objs = s2.objs := by rw [← hS]
+      have hSe : sS.events = s2.events := by rw [← hS]
+      have hSx : sS.executing = s2.executing := by rw [← hS]
+      have hSd : sS.done = s2.done := by rw [← hS]
+      have hSc : sS.cfg = s2.cfg := by rw [← hS]
+      have hSv : view sS = view s2 := by rw [← hS]; rfl
+      have hdn : ∀ i, i ∈ (markDone sS r).done ↔ i ∈ s2.done ∨ i = r.id := by
+        intro i
+        rw [markDone_done_mem, hSd, hSx]
+        constructor
+        · rintro (hh | ⟨e, _⟩)
+          · exact Or.inl hh
+          · exact Or.inr e
+        · rintro (hh | e)
+          · exact Or.inl hh
+          · exact Or.inr ⟨e, r, hr2, rfl⟩
+      have hcD : Core (markDone sS r) := by
+        apply p2.core.congr_done (by simp [hSo]) (by simp [hSe]) (by simp [hSx]) (by simp [hSc]) r hr2
+        · intro _ _ _ _; exact hb
+        · intro i hi; exact (hdn i).mp hi
+      unfold failParse
+      cases hmf : markFailed (markDone sS r) r.id with
+      | none =>
+        simp only [Option.getD_none]
+        exact ⟨hcD, by rw [view_markDone, hSv], fun i hi => (hdn i).mpr (Or.inl hi), fun i hi => (hdn i).mp hi,
+          [], by simp [hSe], Or.inl rfl⟩
+      | some sF =>
+        simp only [Option.getD_some]
+        obtain ⟨hv, hobjs, hev, hdone⟩ := markFailed_frame _ sF r.id hmf
+        obtain ⟨_, hexF, _, _, _, _, _, _, _, _, _, _, _, _, _, hcfgF, _⟩ := view_eq hv
+        exact ⟨hcD.congr hobjs hev hexF hcfgF (fun _ _ _ hd => by rw [hdone] at hd; exact hd),
+          by rw [hv, view_markDone, hSv], fun i hi => by rw [hdone]; exact (hdn i).mpr (Or.inl hi),
+          fun i hi => by rw [hdone] at hi; exact (hdn i).mp hi, [], by simp [hev, hSe], Or.inl rfl⟩
+    | false =>
+      -- the instance (new, or created earlier and never initialised) is initialised now
+      simp only [Bool.false_eq_true, ↓reduceIte]
+      apply wrap
+      generalize hc0 : (⟨k, s2.objs.length, (staleOwner s2.stale k).getD r.id, 0, true, false, false, false, true⟩ : Cmd) = c0
+      have hser : c0.serial = s2.objs.length := by rw [← hc0]
+      rw [← hser]
+      generalize hN : ({ s2 with objs := s2.objs ++ [c0], stale := dropStale s2.stale k,
+          events := s2.events ++ [.init c0.serial] } : State) = sN
+      have hNo : sN.objs = s2.objs ++ [c0] := by rw [← hN]
+      have hNe : sN.events = s2.events ++ [.init c0.serial] := by rw [← hN]
+      have hNx : sN.executing = s2.executing := by rw [← hN]
+      have hNd : sN.done = s2.done := by rw [← hN]
+      have hNc : sN.cfg = s2.cfg := by rw [← hN]
+      have hNv : view sN = view s2 := by rw [← hN]; rfl
+      have hcN : Core sN := by
+        apply p2.core.spawn (c := c0) (r := r) hNo hser (by rw [← hc0]) (by rw [← hc0]) (by rw [← hc0])
+          (by rw [← hc0]) hr2 (by rw [hk, ← hc0]) hb hrd2 hNe hNx hNc hNd
+        intro o ho hm
+        cases hcf : conflict s2.cfg o.name c0.name with
+        | false => rfl
+        | true =>
+          have : c0.name = k := by rw [← hc0]
+          rw [this, hcfg2] at hcf
+          exact absurd (hhold o ho hm hcf).1 (hnone o ho hm)
+      have p := runCmd_live (c := c0) hcN (by rw [hNc]; exact hfix2) (htr2.of_view hNv) (by rw [hNx]; exact hr2) hk
+        (by rw [hNo]; simp) (by rw [← hc0]) (by rw [← hc0])
+      obtain ⟨evs, e1, e2⟩ := p.evs
+      refine ⟨p.core, by rw [p.view, hNv], fun i hi => p.doneGrow i (by rw [hNd]; exact hi),
+        fun i hi => by rw [← hNd]; exact p.doneOnly i hi, [.init c0.serial] ++ evs, by rw [e1, hNe]; simp, ?_⟩
+      rw [execsOf_append]
+      simpa [execsOf] using e2
 
 /-- While the run is paused an interpreter-sourced request is not executed at all. -/
 theorem executeUod_paused {s : State} (r : Req) (k : Nat) (hp : s.paused = true) :
